@@ -263,6 +263,23 @@ def change_parameters(model):
             dep.parameters = pars
 
 
+def current_description(model, desc):
+    """description of the model AS IT IS NOW: parameter values read back from the current objects
+    (dist.parameters of unconditional dimensions, dep.parameters of the dependence functions); the
+    structure, families, fixed parameters and function kinds are those of desc"""
+    import copy
+    d = copy.deepcopy(desc)
+    for i in range(d["n_dim"]):
+        obj = model.distributions[i]
+        if d["cond"][i] is None:
+            d["dims"][i]["params"] = {k: float(v) for k, v in obj.parameters.items()}
+        else:
+            for p, (kind, co) in d["dims"][i]["deps"].items():
+                cur = list(obj.conditional_parameters[p].parameters.values())
+                d["dims"][i]["deps"][p] = [kind, [float(v) for v in cur]]
+    return d
+
+
 def change_description(desc):
     """the description of the model change_parameters() produces (same float operations), so that a
     FRESH model with the current parameters can be built"""
